@@ -437,7 +437,11 @@ Section WithBuiltins.
     | TkAttribute prefix local value =>
         if str_eqb (ss_text prefix) s_xmlns then
           do uri <- parse_attr_value value;
-          builder_prefix st (ss_text local) uri (from_prefix_name prefix local)
+          (* Namespaces in XML 1.0, "No Prefix Undeclaring": xmlns:p="" is refused *)
+          match uri with
+          | [] => BErr (PEXmlParser (sp_start (ss_span prefix)))
+          | _ => builder_prefix st (ss_text local) uri (from_prefix_name prefix local)
+          end
         else if str_eqb (ss_text prefix) [] && str_eqb (ss_text local) s_xmlns then
           do uri <- parse_attr_value value;
           builder_prefix st [] uri (from_prefix_name prefix local)
@@ -482,6 +486,9 @@ Section WithBuiltins.
                       else BErr (PEUnsupportedVersion (ss_text v) (ss_span v))
           | None => BErr (PEXmlParser position)
           end
+        else
+        (* Namespaces in XML 1.0: no colon in a processing instruction target *)
+        if existsb (N.eqb 58) (ss_text target) then BErr (PEXmlParser (sp_start (ss_span target) - 2))
         else
         (* PI ::= '<?' PITarget (S ...)? '?>': what follows the target is separated from it by white space (the tokenizer does
            not insist) *)
